@@ -206,6 +206,14 @@ class WrapperMixin(object):
         self.splicer_names[-1] = name
         self.splicer_path = ".".join(self.splicer_names) + "."
 
+    def _user_code(self, lines):
+        """A tab marks a place where a generated line may be continued
+        and is removed when the line is written.  In code supplied by
+        the user it is white space.
+        """
+        return [line.expandtabs() if isinstance(line, str) else line
+                for line in lines]
+
     def _create_splicer(self, name, out, default=None, force=None):
         """Insert a splicer with *name* into list *out*.
         If *force* is defined, use it for contents. Otherwise,
@@ -231,10 +239,10 @@ class WrapperMixin(object):
             )
         added_code = True
         if force is not None:
-            out.extend(force)
+            out.extend(self._user_code(force))
         elif name in self.splicer_stack[-1]:
             code = self.splicer_stack[-1][name]
-            out.extend(code)
+            out.extend(self._user_code(code))
         elif default is not None:
             out.extend(default)
         else:
